@@ -38,6 +38,12 @@ var labelExceptions = map[string]string{
 	"mocrelay.joinServerOKMsgs":          "the merged OK carries the event id of the child replies being merged (msgs[0].EventID; all children answer the same id, see SLOT-RELEASE)",
 }
 
+// the exact provenance each frozen exception admits
+var labelExceptionPath = map[string]string{
+	"(*mocrelay.subscriber).SendIfMatch": "recv.SubscriptionID",
+	"mocrelay.joinServerOKMsgs":          "p:msgs[0].EventID",
+}
+
 var labelRe = regexp.MustCompile(`^p:(\w+)\.(Event\.ID|SubscriptionID)$`)
 
 func labelAttribution(c *core.Ctx, fn *ssa.Function) []string {
@@ -90,7 +96,8 @@ func runLabel(c *core.Ctx) {
 				root = root.Parent()
 			}
 			if why, isEx := labelExceptions[fname(c, root)]; isEx {
-				c.OK(props, fname(c, fn), construct, P.Pos(call.Pos()), "frozen exception: "+why+" ← "+ap)
+				c.Check(ap == labelExceptionPath[fname(c, root)], props, fname(c, fn), construct, P.Pos(call.Pos()), "frozen exception: "+why+" ← "+ap,
+					short+" is labelled with "+ap+", want "+labelExceptionPath[fname(c, root)]+" ("+why+")")
 				continue
 			}
 			m := labelRe.FindStringSubmatch(ap)
